@@ -71,7 +71,7 @@ PROPS = {
         "3 Coq theorems (Props/Properties_C04.v; Proofs/SolverReach1/2/.v ~1500 lines): for every lawful VersionSet, every registry with well-formed dependency sets, every provider trace that agrees with the registry and every fuel: if the model of resolve returns Ok(sol) then every selected package is the root or reachable from the root through the dependencies (as the registry gives them) of the SELECTED versions; equivalently every selected package other than the root is a dependency of some selected version (no orphan, e.g. one required only by a version that was backtracked away - the non-vacuity example is such a run). Proof: the solution restricted to the reachable packages is again a solution (C01); an unreachable selected package with the earliest first positive derivation would make that restriction violate the cause of the derivation, contradicting the validity of every stored incompatibility (C06). Oracle: every Ok result of the case stream is checked for reachability."),
     "C05": solver_prop("Props/Properties_C05.v", "proof",
         "Coq proof: termination by a bounded lexicographic potential over decision levels (the CDCL argument adapted to terms over a finite ranked algebra of version sets), panic-freedom and no-Failure by a state invariant over the whole control flow of the solver model (all 19 panic sites); + exploration under catch_unwind, a call budget and a watchdog (debug assertions and overflow checks on)",
-        "15 Coq theorems (Props/Properties_C05.v; Proofs/SolverTerm1..6/.v + instances ~2800 lines, SolverNoPanic1/2/.v ~2100 lines, SolverProto2.v, SolverShared.v). For every lawful VersionSet with atomic singletons (extra law: a singleton contains only the point of its version; proved for Range<V> and the bitset, and proved NECESSARY by a counter-model), every FINITE registry (finitely many packages; its dependency sets and version singletons inside a finite ranked algebra of sets - proved to exist for Range<V> relative to any finite list of bound values, and for the bitset), every trace that agrees with it: TERMINATION - every run consumes at most Events0 provider events, a number computed from the registry alone (resolve_calls_bounded), and with at least Fuel1 fuel (also a function of the registry alone) the model never runs out of fuel (resolve_never_out_of_fuel; by C07 more fuel never changes a result), so no loop of the algorithm runs forever; NO PANIC - none of the 19 Panic outcomes (one per panic!/unwrap/expect/unreachable!/debug_assert! site) is reachable; NO FAILURE - never Failure('no term'), and never Failure at all when choose_version answers inside the offered set; hence (resolve_terminates_ok_or_nosolution) a well-behaved provider without error answers gets Ok or NoSolution (or the recorded trace is not a complete run of the model). Building the derivation tree never fails. Not in the model: arithmetic overflow of counters (unbounded naturals in the model) - covered by running the implementation with overflow checks and debug assertions on. Exploration: every case runs under catch_unwind with a 20000-call budget and a 5 s watchdog (a loop without provider calls is reported as (hang)); degenerate registries (root without versions, empty sets, unknown packages, cycles, self-dependencies, unavailable versions) are generated on purpose."),
+        "15 Coq theorems (Props/Properties_C05.v; Proofs/SolverTerm1..6/.v + instances ~2800 lines, SolverNoPanic1/2/.v ~2100 lines, SolverProto2.v, SolverShared.v). For every lawful VersionSet with atomic singletons (extra law: a singleton contains only the point of its version; proved for Range<V> and the bitset, and proved NECESSARY by a counter-model), every FINITE registry (finitely many packages; its dependency sets and version singletons inside a finite ranked algebra of sets - proved to exist for Range<V> relative to any finite list of bound values, and for the bitset), every trace that agrees with it: TERMINATION - every run consumes at most Events0 provider events, a number computed from the registry alone (resolve_calls_bounded), and with at least Fuel1 fuel (also a function of the registry alone) the model never runs out of fuel (resolve_never_out_of_fuel; by C07 more fuel never changes a result), so no loop of the algorithm runs forever; NO PANIC - none of the 19 Panic outcomes (one per panic!/unwrap/expect/unreachable!/debug_assert! site) is reachable; NO FAILURE - never Failure('no term'), and never Failure at all when choose_version answers inside the offered set; hence (resolve_terminates_ok_or_nosolution) a well-behaved provider without error answers gets Ok or NoSolution (or the recorded trace is not a complete run of the model). Building the derivation tree never fails. Not in the model: arithmetic overflow of counters (unbounded naturals in the model) - covered by running the implementation with overflow checks and debug assertions on. Exploration: every case runs under catch_unwind with a 20000-call budget and a 20 s watchdog (a loop without provider calls is reported as (hang)); degenerate registries (root without versions, empty sets, unknown packages, cycles, self-dependencies, unavailable versions) are generated on purpose."),
     "C06": solver_prop("Props/Properties_C06.v", "proof",
         "Coq proof by invariant over the solver model: every store entry is justified by its kind and valid (external constructors, merged dependents, rule of resolution), preserved by unit propagation, conflict resolution, backtracking and the main loop",
         "7 Coq theorems: for every lawful VersionSet, registry, well-behaved trace and fuel, every incompatibility in the model's store (external, merged, learned, intermediate prior causes; runs ending in Ok, NoSolution, errors or cut short) is valid: no solution makes all its terms true. Tie: full-trace correspondence; oracle: validity of every store entry of the replayed run against all solutions of the registry (complete enumeration on small registries).",
